@@ -1128,7 +1128,14 @@ procSysMap()
 
 #elif defined(OS_Linux_Procfs_Memmap)  /* OS_Procfs_MemMap */
 
-#define MAX_MMAPS 30
+/*
+ * One entry per writable mapping that is not adjacent to the one before it,
+ * plus the end mark.  A process easily has more than a few dozen (shared
+ * libraries, the C library's own arenas, a host application's mappings), so
+ * the table is generous and, when it is full all the same, the collector
+ * stops with a message instead of writing past its end.
+ */
+#define MAX_MMAPS 4096
 /* 
    code for Linux - does not support ioctl 
    CAREFUL: if we close the FILE* too early there will be 
@@ -1164,6 +1171,10 @@ struct osMemMap **osMemMap(int mask)
 #if 0
     fputs(line,stdout);
 #endif
+    if (mm >= mmv + MAX_MMAPS - 1) {
+      osDisplayMessage("Too many memory mappings for the storage manager.\n");
+      exit(EXIT_FAILURE);
+    }
     sscanf(line,"%lx-%lx %4c",&lo,&hi,perm);
     read_only = perm[1] == 'w' ? 0 :1;
     /* Ignore read-only segments (because they will never contain 
@@ -1184,7 +1195,7 @@ struct osMemMap **osMemMap(int mask)
     /* we ARE looking for data maps */
     /* check if the previous one was a data map and 
        if contiguous collapse them */
-    else if (mm[-1].use == OSMEM_DDATA && mm[-1].hi == (Pointer) lo)
+    else if (mm > mmv && mm[-1].use == OSMEM_DDATA && mm[-1].hi == (Pointer) lo)
       mm[-1].hi = (Pointer) hi;
     /* "new" data map - record it */
     else {
